@@ -29,7 +29,12 @@
 //!   here and add a migration note in the determinism spec.
 //! - The in-memory store uses `BTreeMap`, which guarantees deterministic key
 //!   iteration. For vectors (edge lists), we sort explicitly by `EdgeId`.
+#[cfg(not(feature = "echo_verif_flat"))]
 use std::collections::{BTreeSet, VecDeque};
+#[cfg(feature = "echo_verif_flat")]
+use crate::verif_flat::BTreeSet;
+#[cfg(feature = "echo_verif_flat")]
+use std::collections::VecDeque;
 
 use blake3::Hasher;
 
